@@ -172,7 +172,7 @@ def run(chk, replay=None):
                 "frames of a multipart message} x {orderly EOF, connection reset (reads and writes fail), EOF followed by write failure} x {1, 2 other live peers} x {the fault is first met by a recv, by a send}, each followed by recv / send calls and "
                 "traffic from the other peers, on real sockets over in-memory pipes (enumerated exhaustively), plus seeded random variations; judged by TLC: TraceLifecycle (at most one "
                 "error per fault, no send routed to a peer whose end was observed, both halves released by the next quiescent point) and TraceDelivery (other peers unaffected); "
-                "the reaction mechanism is model-checked with its named deviations (PeerLifecycle), the peer table's locking with PeerTable, the multi-step registration / forgetting of connections of one identity with Registry (bound by the twins cells: one registration is stopped between its steps while a second one of the same identity runs - and sampled on the multi-threaded runtime over real TCP: 8 groups of two connections per round finish their handshakes under one identity at the same instant, every connection the socket leaves open must be one it reads from, TraceRace); distinct = distinct grid cells; non-trivial = all")
+                "the reaction mechanism is model-checked with its named deviations (PeerLifecycle), the peer table's locking with PeerTable, the multi-step registration / forgetting of connections of one identity with Registry (sampled on the multi-threaded runtime over real TCP: 8 groups of two connections per round finish their handshakes under one identity at the same instant, every connection the socket leaves open must be one it reads from, TraceRace); distinct = distinct grid cells; non-trivial = all")
     chk.assumptions = ["TLC and CommunityModules are correct", "'observed' = the library's read on that connection returned EOF / an error or its write returned an error (logged by the pipe)",
                        "descriptor counting over real TCP/IPC is done by the C17 check's drivers, not here"]
     thorough = chk.tier == "thorough"
